@@ -1,4 +1,4 @@
-from harness import gens, scen, sched
+from harness import core, gens, scen, sched
 from harness.scen import call, LOOK_TO, GO
 
 BAD_ROWGEN = [
@@ -117,6 +117,22 @@ class C19(scen.WorldProp):
         # position of the *held-up* rhythm
         for i in range(16 if tier == "quick" else 200):
             yield self.speed_after_hold_up(rng)
+        # (v) the real server-mode start-up, with the answers to the join arriving at once or a millisecond later
+        for i in range(8 if tier == "quick" else 60):
+            yield self.startup_case(rng)
+
+    def startup_case(self, rng):
+        """The real `main(["server-mode", ...])`: Ringing Room answers the join with the user list, the assignments
+        and the selected method - either a millisecond later or at once, while `emit("c_join")` is still running."""
+        N = rng.choice([6, 8])
+        stage = rng.choice([4, 5, 6, N])
+        t0 = 1001.0 + rng.random()
+        I = scen.interval(180, N)
+        sc = {"start": 1000.0, "end": t0 + 3 + 7 * I * (N + 1), "tower_size": N,
+              "tower_id": rng.randint(100000000, 999999999),
+              "on_join": scen.humans_on_join([], "Wheatley", list(range(1, 17))) + [method_msg(stage)],
+              "sync_join": rng.random() < 0.5, "events": [call(t0, LOOK_TO)], "bot": None, "rhythm": None}
+        return {"k": "startup", "scenario": sc, "stage": stage, "N": N, "t0": t0, "id": rng.randint(1, 9)}
 
     def corpus(self):
         # witness of the repaired exit race: Look To lands in the last 10 ms idle poll before the deadline
@@ -248,12 +264,44 @@ class C19(scen.WorldProp):
             return None
         return lambda s: [scen.Follower(s, plan["humans"], lambda r, p: plan["lag"], stop=plan["t_stop"])]
 
+    def impl_startup(self, req):
+        import time as _time
+        import wheatley.tower as wtower
+        from harness import sim
+        import socketio as fake_socketio
+        from wheatley import main as wmain
+        sc = req["scenario"]
+        s = sim.Sim(sc)
+        saved = (_time.time, _time.sleep, wtower.sleep)
+        fake_socketio.set_factory(lambda c: sim._bind(s, c))
+        _time.time, _time.sleep, wtower.sleep = s.time, s.sleep, s.sleep
+        err = None
+        try:
+            wmain.main(["server-mode", str(sc["tower_id"]), "--port", "5000", "--id", str(req["id"])])
+            err = "returned"
+        except sim.Stop:
+            pass
+        except SystemExit:
+            err = "SystemExit"
+        except Exception as e:  # noqa
+            err = type(e).__name__
+        finally:
+            s.abort_handlers()
+            _time.time, _time.sleep, wtower.sleep = saved
+            fake_socketio.set_factory(None)
+        return {"obs": s.obs, "strikes": [[core.float_to_bits(t), b, by] for (t, b, by) in s.strikes], "err": err,
+                "handler_crashes": s.handler_crashes, "crashed": None, "exited": False}
+
     def impl(self, req):
+        if req["k"] == "startup":
+            return self.impl_startup(req)
         if req["k"] == "sched":
             return sched.run_pair(req["pair"], req["p"], req["max"], req["bound"])
         return super().impl(req)
 
     def to_model(self, req):
+        if req["k"] == "startup":
+            return None
         if req["k"] == "sched":
             p = req["p"]
             return {"k": "cs", "pair": req["pair"], "cur": p["cur"] or 0, "queued": p["queued"], "size": p["size"],
@@ -268,6 +316,8 @@ class C19(scen.WorldProp):
         return super().compare(req, ir, mr)
 
     def tag(self, req, reply):
+        if req["k"] == "startup":
+            return "startup:" + ("join-answered-at-once" if req["scenario"]["sync_join"] else "join-answered-1ms-later")
         if req["k"] == "sched":
             return "sched:" + req["pair"]
         plan = req["plan"]
@@ -279,7 +329,24 @@ class C19(scen.WorldProp):
             return reply["schedules"] > 10
         return len(scen.rings(reply)) > 4
 
+    def oracle_startup(self, req, reply):
+        if reply["err"] or reply["handler_crashes"]:
+            return f"server-mode start-up: main ended with {reply['err']}, handlers raised {reply['handler_crashes']}"
+        N, stage = req["N"], req["stage"]
+        bells = [b for (t, b, by) in reply["strikes"] if scen.b2f(t) >= req["t0"]]
+        rows = [bells[i:i + N] for i in range(0, len(bells) - len(bells) % N, N)]
+        want = [list(range(1, N + 1))] * 2 + [r + list(range(stage + 1, N + 1)) for r in plain_rows(stage, 30)]
+        if len(rows) < 3:
+            return (f"the method Ringing Room sent in answer to the join (stage {stage}) was lost: after Look To Wheatley "
+                    f"rang {len(rows)} rows")
+        for i, r in enumerate(rows):
+            if i < len(want) and r != want[i]:
+                return f"after start-up, row {i} = {r}, the selected method gives {want[i]}"
+        return None
+
     def oracle(self, req, reply):
+        if req["k"] == "startup":
+            return self.oracle_startup(req, reply)
         if req["k"] == "sched":
             if reply["bad"] is not None:
                 return (f"{req['pair']} {req['p']}: schedule {reply['bad']['choices']} ends in "
